@@ -1,6 +1,7 @@
 (* Props/C05.v — C05: results do not depend on the window used to ask for them.
    Statements only. *)
-From CG Require Import Proofs.Defs Proofs.RefSpec Proofs.Stored Proofs.Clip.
+From CG Require Import Proofs.Defs Proofs.RefSpec Proofs.Stored Proofs.Clip Proofs.Assembly
+     Proofs.Assembly2.
 
 (* the reference semantics is window independent by construction: asking a nested window
    gives exactly the clip of the wider answer *)
@@ -27,3 +28,15 @@ Theorem C05_slice_is_clip : forall m xs a b, sorted_start xs ->
   inter_sweep [xs; [mkI a b Plain]] (emit_sel [m; true]) = flat_map (clipW a b) xs.
 Proof. exact clip_sweep_masks. Qed.
 Print Assumptions C05_slice_is_clip.
+
+(* ---- whole expression trees ([good], see Props/C01.v): slicing with a nested window returns
+   exactly the wider result clipped to it (same events, same metadata) ---- *)
+Theorem C05_locality : forall env e a1 b1 a2 b2,
+  good env e -> wf_win' a1 b1 -> wf_win' a2 b2 ->
+  bnd_lo (fst (norm_bounds a1 b1)) <= bnd_lo (fst (norm_bounds a2 b2)) ->
+  bnd_hi (snd (norm_bounds a2 b2)) <= bnd_hi (snd (norm_bounds a1 b1)) ->
+  Permutation (slice env e a2 b2 false)
+              (flat_map (clipW (fst (norm_bounds a2 b2)) (snd (norm_bounds a2 b2)))
+                        (slice env e a1 b1 false)).
+Proof. exact Assembly2.C05_locality. Qed.
+Print Assumptions C05_locality.
